@@ -25,13 +25,14 @@ Record xio := mkXio { xi_id : Z; xi_fd : Z; xi_ev : Z; xi_unbind : bool; xi_cb :
 Record xst := mkX {
   x_ios : list xio; x_tab : list (option Z); x_sgs : list sgw; x_def : list ltr;
   x_kpend : list Z; x_ready : list (Z * Z); x_inwait : list Z;
-  x_next : Z; x_iter : Z; x_log : list obs }.
+  x_next : Z; x_iter : Z; x_log : list obs;
+  x_run : bool (* no tickit_stop since the loop was entered *) }.
 
-Definition xst0 : xst := mkX [] [None] [] [] [] [] [] 0 0 [].
+Definition xst0 : xst := mkX [] [None] [] [] [] [] [] 0 0 [] false.
 
 Definition xemit (s : xst) (id : Z) (k : kind) (flags x : Z) : xst :=
   mkX (x_ios s) (x_tab s) (x_sgs s) (x_def s) (x_kpend s) (x_ready s) (x_inwait s) (x_next s) (x_iter s)
-      (OEv (mkE id k flags (x_iter s) 0 x) :: x_log s).
+      (OEv (mkE id k flags (x_iter s) 0 x) :: x_log s) (x_run s).
 
 Fixpoint find_xio (id : Z) (l : list xio) : option xio :=
   match l with [] => None | h :: t => if xi_id h =? id then Some h else find_xio id t end.
@@ -59,20 +60,20 @@ Definition x_cancel (s : xst) (id : Z) : xst :=
   match find_xio id (x_ios s) with
   | Some w =>
       let s1 := mkX (remove_xio id (x_ios s)) (tab_del (x_tab s) id) (x_sgs s) (x_def s) (x_kpend s)
-                    (x_ready s) (x_inwait s) (x_next s) (x_iter s) (x_log s) in
+                    (x_ready s) (x_inwait s) (x_next s) (x_iter s) (x_log s) (x_run s) in
       if xi_unbind w then xemit s1 id KIo EV_UNBIND 0 else s1
   | None =>
   match find_sgw id (x_sgs s) with
   | Some w =>
       if memz (g_sig w) (x_kpend s) then s else
       let s1 := mkX (x_ios s) (x_tab s) (remove_sgw id (x_sgs s)) (x_def s) (x_kpend s)
-                    (x_ready s) (x_inwait s) (x_next s) (x_iter s) (x_log s) in
+                    (x_ready s) (x_inwait s) (x_next s) (x_iter s) (x_log s) (x_run s) in
       if g_unbind w then xemit s1 id KSig EV_UNBIND (g_sig w) else s1
   | None =>
   match find_ltr id (x_def s) with
   | Some w =>
       let s1 := mkX (x_ios s) (x_tab s) (x_sgs s) (remove_ltr id (x_def s)) (x_kpend s)
-                    (x_ready s) (x_inwait s) (x_next s) (x_iter s) (x_log s) in
+                    (x_ready s) (x_inwait s) (x_next s) (x_iter s) (x_log s) (x_run s) in
       if l_unbind w then xemit s1 id KLater EV_UNBIND 0 else s1
   | None => s
   end end end.
@@ -81,21 +82,22 @@ Definition x_action (s : xst) (a : saction) : xst :=
   match a with
   | SLater ub cb =>
       mkX (x_ios s) (x_tab s) (x_sgs s) (x_def s ++ [mkLt (x_next s) ub cb]) (x_kpend s)
-          (x_ready s) (x_inwait s) (x_next s + 1) (x_iter s) (x_log s)
+          (x_ready s) (x_inwait s) (x_next s + 1) (x_iter s) (x_log s) (x_run s)
   | SIo fd cond ub cb =>
       mkX (x_ios s ++ [mkXio (x_next s) fd (events_of_cond cond) ub cb]) (tab_put (x_tab s) (x_next s)) (x_sgs s) (x_def s)
-          (x_kpend s) (x_ready s) (x_inwait s) (x_next s + 1) (x_iter s) (x_log s)
+          (x_kpend s) (x_ready s) (x_inwait s) (x_next s + 1) (x_iter s) (x_log s) (x_run s)
   | SSig sig ub cb =>
       mkX (x_ios s) (x_tab s) (x_sgs s ++ [mkSg (x_next s) sig ub cb]) (x_def s) (x_kpend s)
-          (x_ready s) (x_inwait s) (x_next s + 1) (x_iter s) (x_log s)
+          (x_ready s) (x_inwait s) (x_next s + 1) (x_iter s) (x_log s) (x_run s)
   | SCancel id => x_cancel s id
   | SErrno _ => s
   | SRaise sig =>
       if x_watched s sig
       then mkX (x_ios s) (x_tab s) (x_sgs s) (x_def s) (addz sig (x_kpend s)) (x_ready s) (x_inwait s)
-               (x_next s) (x_iter s) (x_log s)
+               (x_next s) (x_iter s) (x_log s) (x_run s)
       else s
   | SNop => s
+  | SStop => mkX (x_ios s) (x_tab s) (x_sgs s) (x_def s) (x_kpend s) (x_ready s) (x_inwait s) (x_next s) (x_iter s) (x_log s) false
   end.
 
 Definition x_actions (s : xst) (l : list saction) : xst := fold_left x_action l s.
@@ -109,7 +111,7 @@ Fixpoint x_run_def (ids : list Z) (s : xst) : xst :=
       | None => x_run_def r s
       | Some w =>
           let s1 := mkX (x_ios s) (x_tab s) (x_sgs s) (remove_ltr i (x_def s)) (x_kpend s)
-                        (x_ready s) (x_inwait s) (x_next s) (x_iter s) (x_log s) in
+                        (x_ready s) (x_inwait s) (x_next s) (x_iter s) (x_log s) (x_run s) in
           x_run_def r (x_actions (xemit s1 i KLater (EV_FIRE + EV_UNBIND) 0) (env (l_cb w)))
       end
   end.
@@ -155,25 +157,41 @@ Definition io_snapshot (s : xst) : list (Z * Z) :=
         end
     end) (x_tab s).
 
-Definition x_tick (sleep : bool) (s : xst) : xst :=
+Definition x_iteration (sleep : bool) (s : xst) : xst :=
   let msec := if sleep then match x_def s with [] => -1 | _ => 0 end else 0 in
   let s1 := mkX (x_ios s) (x_tab s) (x_sgs s) (x_def s) (x_kpend s) [] [] (x_next s) (x_iter s + 1)
-                (OPoll msec :: x_log s) in
+                (OPoll msec :: x_log s) (x_run s) in
   let snap := io_snapshot s in
   let defs := map l_id (x_def s) in
   match snap with
   | _ :: _ => x_run_io snap (x_run_def defs s1)
   | [] =>
       let delivered := x_kpend s ++ filter (x_watched s) (x_inwait s) in
-      let s2 := mkX (x_ios s1) (x_tab s1) (x_sgs s1) (x_def s1) [] [] [] (x_next s1) (x_iter s1) (x_log s1) in
+      let s2 := mkX (x_ios s1) (x_tab s1) (x_sgs s1) (x_def s1) [] [] [] (x_next s1) (x_iter s1) (x_log s1) (x_run s1) in
       match delivered with
       | [] => x_run_def defs s1
       | _ => x_run_sigs (sort_z (dedup delivered)) (x_run_def defs s2)
       end
   end.
 
+Definition x_set_run (s : xst) (v : bool) : xst :=
+  mkX (x_ios s) (x_tab s) (x_sgs s) (x_def s) (x_kpend s) (x_ready s) (x_inwait s) (x_next s) (x_iter s) (x_log s) v.
+
+(* tickit_tick: one iteration, whatever the callbacks did to the loop's run flag *)
+Definition x_tick (sleep : bool) (s : xst) : xst := x_iteration sleep (x_set_run s true).
+
+(* tickit_run: iterations until a callback has called tickit_stop; the harness does so itself
+   in the k-th iteration.  Everything an iteration owes -- the deferred callbacks, then the IO
+   snapshot or the delivered signals -- is done in full even if a callback stopped the loop *)
+Fixpoint x_run_passes (k : nat) (s : xst) : xst :=
+  match k with
+  | O => s
+  | S k' => if negb (x_run s) then s
+            else x_run_passes k' (x_iteration true (if Nat.eqb k' 0 then x_set_run s false else s))
+  end.
+
 Definition x_destroy (s : xst) : xst :=
-  let s0 := mkX (x_ios s) (x_tab s) (x_sgs s) (x_def s) (x_kpend s) (x_ready s) (x_inwait s) (x_next s) (-1) (x_log s) in
+  let s0 := mkX (x_ios s) (x_tab s) (x_sgs s) (x_def s) (x_kpend s) (x_ready s) (x_inwait s) (x_next s) (-1) (x_log s) (x_run s) in
   let s1 := fold_left (fun s w => if xi_unbind w then xemit s (xi_id w) KIo (EV_UNBIND + EV_DESTROY) 0 else s) (x_ios s0) s0 in
   let s2 := fold_left (fun s w => if l_unbind w then xemit s (l_id w) KLater (EV_UNBIND + EV_DESTROY) 0 else s) (x_def s0) s1 in
   fold_left (fun s w => if g_unbind w then xemit s (g_id w) KSig (EV_UNBIND + EV_DESTROY) (g_sig w) else s) (x_sgs s0) s2.
@@ -184,10 +202,11 @@ Definition x_op (s : xst) (o : sop) : xst :=
   | STick sl => x_tick sl s
   | SReady fd rv =>
       mkX (x_ios s) (x_tab s) (x_sgs s) (x_def s) (x_kpend s) ((fd, rv) :: x_ready s) (x_inwait s)
-          (x_next s) (x_iter s) (x_log s)
+          (x_next s) (x_iter s) (x_log s) (x_run s)
   | SArrive sg =>
       mkX (x_ios s) (x_tab s) (x_sgs s) (x_def s) (x_kpend s) (x_ready s) (x_inwait s ++ [sg])
-          (x_next s) (x_iter s) (x_log s)
+          (x_next s) (x_iter s) (x_log s) (x_run s)
+  | SRunLoop k => x_run_passes k (x_set_run s true)
   end.
 
 Definition xspec_run (ops : list sop) : list obs := rev (x_log (x_destroy (fold_left x_op ops xst0))).
